@@ -7,6 +7,7 @@ import cssutils
 import cssutils.profiles as PR
 from cssutils.css import CSSStyleDeclaration, Property
 from vlib import cssmodel as A
+from vlib.reported import reported_sub
 from vlib.runner import Sub, Violation, lib
 
 PROPERTY = 'C13'
@@ -512,3 +513,6 @@ def check_expect(case, ctx):
 
 
 SUBS.append(Sub('expect', check_expect, enumerate=expect_cases, shards_quick=1, shards_thorough=1))
+
+
+SUBS.append(reported_sub('C13'))
